@@ -1496,6 +1496,24 @@ func ruleObjStmHeaderOrder(c *eng.Ctx) {
 	const R = "R4.10-OBJSTM-HEADER-ORDER"
 	c.Rule(R, "the (object number, offset) pairs of an object stream stay in header order: a type-2 cross-reference entry addresses a member by its position in the header, and a member ends where the next pair in header order begins, so the slice is never reordered in place", 1, 1)
 	n := 0
+	// the header storage: the slice fields of the object stream that parseHeader appends the pairs to (one slice of
+	// pairs, or parallel slices of numbers and offsets)
+	pairFields := map[string]bool{"offsets": true}
+	if ph := c.P.Func("core.(*ObjectStream).parseHeader"); ph != nil {
+		eng.Instrs(ph, false, func(in ssa.Instruction) {
+			st, ok := in.(*ssa.Store)
+			if !ok {
+				return
+			}
+			fr, ok := eng.AsField(st.Addr)
+			if !ok || !strings.HasSuffix(fr.Struct, "core.ObjectStream") {
+				return
+			}
+			if call, ok := st.Val.(*ssa.Call); ok && eng.CalleeName(call) == "builtin:append" {
+				pairFields[fr.Field] = true
+			}
+		})
+	}
 	for _, fn := range c.P.ModuleFuncs() {
 		if fn.Pkg == nil {
 			continue
@@ -1507,7 +1525,7 @@ func ruleObjStmHeaderOrder(c *eng.Ctx) {
 		usesOffsets := false
 		eng.Instrs(fn, false, func(in ssa.Instruction) {
 			if fa, ok := in.(*ssa.FieldAddr); ok {
-				if fr, ok := eng.AsField(fa); ok && fr.Field == "offsets" {
+				if fr, ok := eng.AsField(fa); ok && pairFields[fr.Field] {
 					usesOffsets = true
 				}
 			}
@@ -1519,7 +1537,7 @@ func ruleObjStmHeaderOrder(c *eng.Ctx) {
 		bad := token.NoPos
 		for _, ci := range eng.Calls(fn, false, func(nm string, _ ssa.CallInstruction) bool { return sortInPlace[nm] }) {
 			for v := range eng.Slice(ci.Common().Args[0], nil) {
-				if fr, ok := eng.AsField(v); ok && fr.Field == "offsets" {
+				if fr, ok := eng.AsField(v); ok && pairFields[fr.Field] {
 					bad = ci.Pos()
 				}
 			}
